@@ -123,6 +123,20 @@ def cells():
     ]
     for fid, t, system, c in FORWARD:
         yield ("forwarded-parameter:" + fid, c, X.nta(G, [t], system))
+    # a constant bound to a written reference parameter of an LSC chart (its instantiations are kept apart from those of templates)
+    chart = ('<lsc><name>Chart</name><parameter>int &amp;left, const int cb</parameter><type>Universal</type><mode>Invariant</mode><declaration></declaration>'
+             '<yloccoord number="0" y="10"/><yloccoord number="1" y="20"/><yloccoord number="2" y="30"/>'
+             '<instance id="id7" x="0" y="0"><name>P</name></instance><instance id="id8" x="10" y="0"><name>P2</name></instance>'
+             '<prechart x="0" y="0"><lsclocation>1</lsclocation></prechart>'
+             '<message x="0" y="0"><source ref="id7"/><target ref="id8"/><lsclocation>0</lsclocation><label kind="message">lc</label></message>'
+             '<update x="0" y="0"><anchor instanceid="id8"/><lsclocation>2</lsclocation><label kind="update">left = left - cb</label></update></lsc>')
+    tt = X.template("T", locations=[X.location("id0", "L0")], init="id0")
+    for aid, cdecl, mdecl, arg in (("variable", "const int t = 5;", "int t = 5;", "t"), ("array-element", "const int t[2] = {1, 2};", "int t[2] = {1, 2};", "t[1]"),
+                                   ("record-field", "const St t = {1, 2};", "St t = {1, 2};", "t.f")):
+        for sid, system in (("direct", "Scenario = Chart(%s, 1);" % arg), ("through-partial-instance", "Half(int &hl) = Chart(hl, 1);\nScenario = Half(%s);" % arg)):
+            for c, d in (("const ", cdecl), ("", mdecl)):
+                doc = X.nta(TYPES + "chan lc; " + d, [tt], "P = T(); P2 = T();\n%s\nsystem P, P2;" % system).replace("<system>", chart + "<system>", 1)
+                yield ("lsc-reference-argument:%s:%s" % (aid, sid), c, doc)
     # binders: select and iteration have mutable twins (a plain variable of the same type)
     for wid, wtext in WRITES:
         stmt = wtext.format(X="t")
